@@ -24,7 +24,8 @@ func init() {
 			"that collides with the extra extensions, every SignatureAlgorithm valid for the key); legacy Certificate.CreateCRL (0..200 entries, serials up to 2^159, revocation times in both time " +
 			"encodings and non-UTC zones, per-entry extensions, issuer parsed / unparsed, with / without SKID); CreateRevocationList (Number 0..2^159-1, entries with ReasonCode nil/0/1..10, user-supplied " +
 			"reasonCode extra extension, other entry and list extensions, empty list, every SignatureAlgorithm valid for the key, both time encodings) x RSA / ECDSA P-224..P-521 / Ed25519; " +
-			"plus the documented rejections of CreateRevocationList. non-trivial = object created and parsed with at least one optional element (SAN, extension or entry); distinct by template description",
+			"plus reuse histories (the same CSR template / hand-built CRL issuer / RevocationList template and issuer used for 2-4 creations with one field edited in between, expectation = the harness's model of " +
+			"the caller's values at that call) and the documented rejections of CreateRevocationList. non-trivial = object created and parsed with at least one optional element (SAN, extension or entry); distinct by template description",
 		MinNontrivial:         1250,
 		MinNontrivialThorough: 30000,
 		Shards:                16,
@@ -59,6 +60,7 @@ func runC05(c *core.Ctx) {
 	for i := 0; i < n; i++ {
 		runRLCase(c, r, fmt.Sprintf("rl-%d-%d", c.Shard, i))
 	}
+	runC05Histories(c, c.SubRng("histories"))
 	if c.Shard == 0 {
 		runRLRejections(c)
 	}
